@@ -297,6 +297,8 @@ def dec(t, buf, pos=0):
         else:
             if isinstance(ln, dict):
                 n, pos = dec(T(ln["lt"]), buf, pos)
+                if n < 0:       # a signed count type: a negative number of elements is malformed, not an empty array
+                    raise RefShort(None, "array.count.negative")
             else:
                 n = ln
             for _ in range(n):
